@@ -22,6 +22,7 @@ class Report:
         self.rules = {}         # rule -> description
         self.units = {}
         self.notes = []
+        self.floor_failures = []
         self.assumptions = []
         self.trusted = []
         self.extra = {}
@@ -45,9 +46,11 @@ class Report:
                                  "detail": detail, "loc": loc})
 
     def floor(self, rule, what, got, floor):
-        if got < floor:
-            raise Broken("%s: %s: found %d instances, floor is %d (rule would pass vacuously)" % (rule, what, got, floor))
         self.units["%s:%s" % (rule, what)] = {"found": got, "floor": floor}
+        if got < floor:
+            # deferred: a run that has real violations reports them (exit 1); a run without any is broken (exit 2),
+            # because the rule would otherwise pass vacuously
+            self.floor_failures.append("%s: %s: found %d instances, floor is %d (rule would pass vacuously)" % (rule, what, got, floor))
 
     def note(self, text):
         self.notes.append(text)
@@ -83,6 +86,11 @@ class Report:
                 json.dump(v, fh, indent=1)
             out_lines.append("VIOLATION property=%s replay=%s" % (self.pid, path))
             out_lines.append("  rule=%s key=%s at %s: %s" % (v["rule"], v["key"], v.get("loc"), v["msg"]))
+        if self.floor_failures:
+            if n_new == 0:
+                raise Broken("; ".join(self.floor_failures))
+            for ff in self.floor_failures:
+                out_lines.append("  note: instance floor not met — %s" % ff)
         wall = time.time() - self.t0
         n_ob = len(self.obligations)
         n_dis = sum(1 for o in self.obligations if o["status"] == "discharged")
